@@ -80,6 +80,14 @@ fn setters(ctx: &mut Ctx, r: &mut Rng, _i: u64) {
         let k = s.key_ix();
         let addr = s.key_address(k);
         let i = s.new_utxo(&addr, v.clone());
+        if s.r.below(6) == 0 {
+            // a caller's slip, corrected: the collateral UTxO is first registered with a wrong amount, then again
+            // with the right one (the later registration replaces the earlier)
+            let u = s.csl_utxo(i, None, None);
+            let wrong = Value::new(&u.output().amount().coin().checked_add(&BigNum::from(3_000_000u64)).unwrap_or(BigNum::from(1u64)));
+            let _ = guard(|| cb.add_regular_input(&u.output().address(), &u.input(), &wrong));
+            ctx.bucket("setter.collateral-input-registered-twice");
+        }
         let _ = cb.add_regular_utxo(&s.csl_utxo(i, None, None));
         sum.add(&v);
     }
